@@ -8,6 +8,9 @@ package c20
 // the latter captured through the generated Register*Server functions).
 
 import (
+	"context"
+	"errors"
+
 	"google.golang.org/grpc"
 
 	apicoinswap "mods.irisnet.org/api/irismod/coinswap"
@@ -116,4 +119,46 @@ func grpcPairs() []grpcPair {
 		out = append(out, *byName[n])
 	}
 	return out
+}
+
+// recConn is a client connection that only records which method a generated client invokes.
+type recConn struct{ methods []string }
+
+func (r *recConn) Invoke(_ context.Context, method string, _, _ interface{}, _ ...grpc.CallOption) error {
+	r.methods = append(r.methods, method)
+	return nil
+}
+
+func (r *recConn) NewStream(_ context.Context, _ *grpc.StreamDesc, method string, _ ...grpc.CallOption) (grpc.ClientStream, error) {
+	r.methods = append(r.methods, method)
+	return nil, errors.New("recConn: no streams")
+}
+
+// grpcClients returns, per service name, the generated client of the api family and of the gogoproto family, both
+// talking to cc.
+func grpcClients(cc *recConn) map[string][2]interface{} {
+	return map[string][2]interface{}{
+		apicoinswap.Msg_ServiceDesc.ServiceName:       {apicoinswap.NewMsgClient(cc), coinswaptypes.NewMsgClient(cc)},
+		apicoinswap.Query_ServiceDesc.ServiceName:     {apicoinswap.NewQueryClient(cc), coinswaptypes.NewQueryClient(cc)},
+		apifarm.Msg_ServiceDesc.ServiceName:           {apifarm.NewMsgClient(cc), farmtypes.NewMsgClient(cc)},
+		apifarm.Query_ServiceDesc.ServiceName:         {apifarm.NewQueryClient(cc), farmtypes.NewQueryClient(cc)},
+		apihtlc.Msg_ServiceDesc.ServiceName:           {apihtlc.NewMsgClient(cc), htlctypes.NewMsgClient(cc)},
+		apihtlc.Query_ServiceDesc.ServiceName:         {apihtlc.NewQueryClient(cc), htlctypes.NewQueryClient(cc)},
+		apimt.Msg_ServiceDesc.ServiceName:             {apimt.NewMsgClient(cc), mttypes.NewMsgClient(cc)},
+		apimt.Query_ServiceDesc.ServiceName:           {apimt.NewQueryClient(cc), mttypes.NewQueryClient(cc)},
+		apinft.Msg_ServiceDesc.ServiceName:            {apinft.NewMsgClient(cc), nfttypes.NewMsgClient(cc)},
+		apinft.Query_ServiceDesc.ServiceName:          {apinft.NewQueryClient(cc), nfttypes.NewQueryClient(cc)},
+		apioracle.Msg_ServiceDesc.ServiceName:         {apioracle.NewMsgClient(cc), oracletypes.NewMsgClient(cc)},
+		apioracle.Query_ServiceDesc.ServiceName:       {apioracle.NewQueryClient(cc), oracletypes.NewQueryClient(cc)},
+		apirandom.Msg_ServiceDesc.ServiceName:         {apirandom.NewMsgClient(cc), randomtypes.NewMsgClient(cc)},
+		apirandom.Query_ServiceDesc.ServiceName:       {apirandom.NewQueryClient(cc), randomtypes.NewQueryClient(cc)},
+		apirecord.Msg_ServiceDesc.ServiceName:         {apirecord.NewMsgClient(cc), recordtypes.NewMsgClient(cc)},
+		apirecord.Query_ServiceDesc.ServiceName:       {apirecord.NewQueryClient(cc), recordtypes.NewQueryClient(cc)},
+		apiservice.Msg_ServiceDesc.ServiceName:        {apiservice.NewMsgClient(cc), servicetypes.NewMsgClient(cc)},
+		apiservice.Query_ServiceDesc.ServiceName:      {apiservice.NewQueryClient(cc), servicetypes.NewQueryClient(cc)},
+		apitokenv1.Msg_ServiceDesc.ServiceName:        {apitokenv1.NewMsgClient(cc), tokenv1.NewMsgClient(cc)},
+		apitokenv1.Query_ServiceDesc.ServiceName:      {apitokenv1.NewQueryClient(cc), tokenv1.NewQueryClient(cc)},
+		apitokenv1beta1.Msg_ServiceDesc.ServiceName:   {apitokenv1beta1.NewMsgClient(cc), tokenv1beta1.NewMsgClient(cc)},
+		apitokenv1beta1.Query_ServiceDesc.ServiceName: {apitokenv1beta1.NewQueryClient(cc), tokenv1beta1.NewQueryClient(cc)},
+	}
 }
